@@ -286,13 +286,15 @@ class PlanSuite(PipeSuite):
                  ("random", ["--gen", "random", "--count", "900", "--seed", s], {}),
                  ("malformed", ["--gen", "malformed", "--count", "250", "--seed", s], {}),
                  ("funnel", ["--gen", "funnel", "--count", "250", "--seed", s], {}),
-                 ("chain", ["--gen", "chain", "--count", "150", "--seed", s], {})]
+                 ("chain", ["--gen", "chain", "--count", "150", "--seed", s], {}),
+                 ("recover: ill-formed registrations caught, the same builder used on", ["--gen", "recover", "--count", "300", "--seed", s], {})]
         elif tier == "thorough":
             g = [("exhaustive<=3sys full", ["--gen", "exh", "--count", "1", "--seed", s], {}),
                  ("random", ["--gen", "random", "--count", "30000", "--seed", s], {}),
                  ("malformed", ["--gen", "malformed", "--count", "6000", "--seed", s], {}),
                  ("funnel", ["--gen", "funnel", "--count", "6000", "--seed", s], {}),
                  ("chain", ["--gen", "chain", "--count", "3000", "--seed", s], {}),
+                 ("recover: ill-formed registrations caught, the same builder used on", ["--gen", "recover", "--count", "8000", "--seed", s], {}),
                  ("random(release build)", ["--gen", "random", "--count", "6000", "--seed", str(seed + 1)], {"release": True}),
                  ("funnel(release build)", ["--gen", "funnel", "--count", "3000", "--seed", str(seed + 1)], {"release": True})]
             if not os.path.exists(C.harness_bin(True, True)):
@@ -302,6 +304,7 @@ class PlanSuite(PipeSuite):
                  ("search:malformed", ["--gen", "malformed", "--count", "1200", "--seed", s], {}),
                  ("search:funnel", ["--gen", "funnel", "--count", "1200", "--seed", s], {}),
                  ("search:chain", ["--gen", "chain", "--count", "800", "--seed", s], {}),
+                 ("search:recover", ["--gen", "recover", "--count", "1500", "--seed", s], {}),
                  ("search:exhaustive<=3sys stride4", ["--gen", "exh", "--count", "4", "--seed", s], {})]
         return g
 
@@ -476,14 +479,17 @@ class ParseqSuite(PipeSuite):
         if tier == "quick":
             return [("all tree shapes with <= 4 leaves x 2 access patterns", ["--gen", "exh", "--count", "2", "--seed", s], {}),
                     ("random conflict-free trees (depth<=5, fan-out<=6; pools 1,2,4,16; free/overlap/jitter; inside/outside the pool)", ["--gen", "random", "--count", "40", "--seed", s], {}),
-                    ("random trees with conflicting leaves (debug check)", ["--gen", "conflicts", "--count", "60", "--seed", s], {})]
+                    ("random trees with conflicting leaves (debug check)", ["--gen", "conflicts", "--count", "60", "--seed", s], {}),
+                    ("wide pars (0..70 padding children, a child reading and writing X, a conflicting or harmless last child), every 5th", ["--gen", "wide", "--count", "5", "--seed", s], {})]
         if tier == "thorough":
             return [("all tree shapes with <= 4 leaves x 40 access patterns", ["--gen", "exh", "--count", "40", "--seed", s], {}),
                     ("random conflict-free trees", ["--gen", "random", "--count", "1500", "--seed", s], {}),
-                    ("random trees with conflicting leaves (debug check)", ["--gen", "conflicts", "--count", "2500", "--seed", s], {})]
+                    ("random trees with conflicting leaves (debug check)", ["--gen", "conflicts", "--count", "2500", "--seed", s], {}),
+                    ("wide pars (0..70 padding children, a child reading and writing X, a conflicting or harmless last child), all 756", ["--gen", "wide", "--count", "1", "--seed", s], {})]
         return [("search:exh x 8 patterns", ["--gen", "exh", "--count", "8", "--seed", s], {}),
                 ("search:random", ["--gen", "random", "--count", "300", "--seed", s], {}),
-                ("search:conflicts", ["--gen", "conflicts", "--count", "600", "--seed", s], {})]
+                ("search:conflicts", ["--gen", "conflicts", "--count", "600", "--seed", s], {}),
+                ("search:wide", ["--gen", "wide", "--count", "1", "--seed", s], {})]
 
 
 class AsyncSuite(ExecSuite):
@@ -503,9 +509,9 @@ class PoolSuite(PipeSuite):
     def gens(self, tier, seed, sspec):
         s = str(seed)
         if tier == "thorough":
-            return [("widths 2..16 x {user pool = width, user pool 16, default pool, batch-inner, async, called from a worker of a foreign pool, default pool shared with a narrow batch, user pool attached after the batch was registered} x 25 dispatches", ["--gen", "all", "--count", "25", "--seed", s], {"shards": 2})]
+            return [("widths 2..16 x {user pool = width, user pool 16, default pool, batch-inner, async, called from a worker of a foreign pool, default pool shared with a narrow batch, user pool attached after the batch was registered, async dispatch+wait called from a worker of a foreign pool} x 25 dispatches", ["--gen", "all", "--count", "25", "--seed", s], {"shards": 2})]
         if tier == "quick":
-            return [("widths 2..16 x {user pool = width, user pool 16, default pool, batch-inner, async, called from a worker of a foreign pool, default pool shared with a narrow batch, user pool attached after the batch was registered} x 3 dispatches", ["--gen", "all", "--count", "3", "--seed", s], {"shards": 2})]
+            return [("widths 2..16 x {user pool = width, user pool 16, default pool, batch-inner, async, called from a worker of a foreign pool, default pool shared with a narrow batch, user pool attached after the batch was registered, async dispatch+wait called from a worker of a foreign pool} x 3 dispatches", ["--gen", "all", "--count", "3", "--seed", s], {"shards": 2})]
         return [("search: widths 2,3,5 x all configurations x 6 dispatches", ["--gen", "small", "--count", "6", "--seed", s], {"shards": 2})]
 
 
